@@ -61,13 +61,19 @@ def load(name, frames=None):
     return sn, d
 
 
-def generated(rng, d, N, K, kind, frames=1, open_cluster=False, triclinic=False):
+def generated(rng, d, N, K, kind, frames=1, open_cluster=False, triclinic=False, sheared=False):
     """liquid / perturbed crystal / open cluster; returns Snapshots"""
     cell = gc.make_cell(rng, d, "tri" if triclinic else "ortho", lmin=8.0, lmax=12.0, origin_kind=str(rng.choice(["zero", "neg", "asym"])))
     if triclinic:
         f = gc.make_frac(rng, d, N, "hardcore")
         types = gc.make_types(rng, len(f), K)
-        return gc.snapshots_from([gc.snapshot_from(cell, (f + (rng.normal(0, 0.02, f.shape) if t else 0.0)) % 1.0, types, timestep=100 * t)
+        if sheared:
+            # a sheared trajectory: equal edge lengths, an own tilt per frame (fix deform xy): every frame has its own cell matrix
+            frames = 3
+            cells = [cell] + [gc.retilt(rng, cell) for _ in range(frames - 1)]
+        else:
+            cells = [cell] * frames
+        return gc.snapshots_from([gc.snapshot_from(cells[t], (f + (rng.normal(0, 0.02, f.shape) if t else 0.0)) % 1.0, types, timestep=100 * t)
                                   for t in range(frames)])
     # edges must differ (by >= 8 %) so that an axis mix-up cannot hide behind a cubic box
     Ld = np.diag(cell["H"]).copy()
@@ -205,6 +211,10 @@ def make_transform(rng, kind, inp, d, N, K, T_):
         s0 = (inp["x"] or inp["xu"]).snapshots[0]
         return T("rotate", R=random_rotation(rng, d), c=s0.positions.mean(axis=0))
     if kind == "dilate":
+        s0 = (inp["x"] or inp["xu"]).snapshots[0]
+        if not np.array_equal(s0.hmatrix, np.diag(np.diag(s0.hmatrix))) and rng.random() < 0.75:
+            # a tilted cell in SI metres: tilt factors of 1e-10 .. 1e-9 (an absolute tolerance somewhere makes the cell "orthogonal")
+            return T("dilate", s=float(rng.choice([1e-9, 1e-10, 2.0 ** -33])))
         return T("dilate", s=float(rng.choice([0.37, 2.0, 3.3, 10.0, 1e-9, 1e-10, 1e6])))   # R10: also a change of the unit of length (SI metres, fm)
     raise ValueError(kind)
 
@@ -582,7 +592,7 @@ def build_tasks(ctx):
     # --- generated triclinic cells (tilts of either sign): translations, whole-cell shifts, relabelling
     tri = ["translate", "image", "relabel"]
     add("tri3:liquid:250:2", "gr", tri + ["swap", "dilate"], rdelta=0.06)
-    add("tri2:liquid:250:2", "gr", tri, rdelta=0.06)
+    add("tri2:liquid:250:2", "gr", tri + ["dilate"], rdelta=0.06)
     add("tri3:liquid:200:1", "nn", tri, nn=12)
     add("tri2:liquid:200:1", "cut", tri, rc_nb=1.5)
     add("tri3:liquid:200:1", "boo3", tri, nn=12, l=6)
@@ -590,6 +600,12 @@ def build_tasks(ctx):
     add("tri3:liquid:200:1", "tetra", tri)
     add("tri3:liquid:150:2", "s2", tri)
     add("tri2:liquid:90:2", "hessian", tri, model="lennard_jones")
+    # --- sheared triclinic trajectories (three frames, an own tilt per frame at equal edge lengths)
+    add("tri3s:liquid:150:2", "gr", tri + ["swap"], rdelta=0.06)
+    add("tri2s:liquid:150:1", "cut", tri, rc_nb=1.5)
+    add("tri3s:liquid:120:1", "nn", tri, nn=12)
+    add("tri2s:liquid:150:1", "boo2", tri, nn=6, l=6)
+    add("tri3s:liquid:120:2", "s2", tri)
     # --- open clusters: rotations
     add("open3:150", "boo3", ["rotate", "relabel"], nn=12, l=6)
     add("open3:150", "boo3", ["rotate"], nn=10, l=4)
@@ -634,7 +650,7 @@ def build_input(ctx, rng, label, par):
         x = generated(rng, d, int(parts[2]), int(parts[3]), parts[1])
     elif parts[0].startswith("tri") and parts[0] != "tri2d":
         d = int(parts[0][3])
-        x = generated(rng, d, int(parts[2]), int(parts[3]), parts[1], triclinic=True)
+        x = generated(rng, d, int(parts[2]), int(parts[3]), parts[1], triclinic=True, sheared=parts[0].endswith("s"))
     else:
         d = int(parts[0][4])
         x = generated(rng, d, int(parts[1]), 1, "liquid", open_cluster=True)
